@@ -802,7 +802,11 @@ impl Add<HalfPel> for HalfPel {
     type Output = HalfPel;
 
     fn add(self, rhs: Self) -> Self {
-        HalfPel(self.0 + rhs.0)
+        // Unrestricted motion vector differences reach +-4095 half samples and
+        // accumulate through the predictors, so the sum of a hostile stream's
+        // vectors can leave the `i16` range. Saturate instead of overflowing;
+        // vectors of valid streams are nowhere near the limits.
+        HalfPel(self.0.saturating_add(rhs.0))
     }
 }
 
